@@ -260,3 +260,34 @@ Definition scen_sched (pos : nat) (sc : wscen) : list wlabel :=
   end.
 Definition scen_woken (pos : nat) (sc : wscen) : bool :=
   match wp (wrun (winit pos) (scen_sched pos sc)) with WRet => true | _ => false end.
+
+(* ------------------------------------------------------------------ (C) the client's stream reader (api/client.go Select) *)
+
+(* Select in stream mode sends a request, hands the events of the answer to the handler and continues with
+   `qr = &res.NextQueryRequest` -- the request the server returned (cursor id and the concrete position the cursor was
+   left at), also when the answer carried no events (an empty, timed-out wait).
+   A partition is a growing log of records 0, 1, 2, ...; a request names a position: symbolic `tail` (resolved to the
+   current end when the server builds the cursor) or a concrete index. One round of the loop: `before` records are
+   appended in the gap before the request reaches the server, `during` records while it is served (the waiting request is
+   woken by them, part B); the answer carries everything readable from the position (the batch limit only splits it
+   over rounds; it is not modelled), the next request is the concrete position behind them. *)
+Inductive spos := STail | SAt (i : nat).
+Definition resolve (p : spos) (n : nat) : nat := match p with STail => n | SAt i => i end.
+
+(* advance = the client takes the next request from every answer (the code); false = only from answers with events *)
+Fixpoint sel_run (advance : bool) (req : spos) (n : nat) (rounds : list (nat * nat)) : list nat :=
+  match rounds with
+  | [] => []
+  | (before, during) :: tl =>
+      let n1 := n + before in
+      let p := resolve req n1 in
+      let n2 := n1 + during in
+      let got := seq p (n2 - p) in
+      let req' := if advance || negb (Nat.eqb (length got) 0) then SAt (p + length got) else req in
+      got ++ sel_run advance req' n2 tl
+  end.
+
+Definition appended (rounds : list (nat * nat)) : nat := fold_right (fun r a => fst r + snd r + a) 0 rounds.
+
+(* does the client continue from the answer's next request after an empty answer? (true = the code) *)
+Definition code_select_advances : bool := true.
